@@ -225,7 +225,7 @@ impl<'a, 'b> Gen<'a, 'b> {
                 format!("{}{}", w, k)
             }
             4 => {
-                let w = *self.t.pick(&["a{}$b", "s{}$", "m{}$module", "_{}$_"]);
+                let w = *self.t.pick(&["a{}$b", "s{}$", "m{}$module", "_{}$_", "end${}", "begin$x{}", "join$_{}", "endcase${}", "wire${}"]);
                 w.replace("{}", &k.to_string())
             }
             5 => {
